@@ -35,7 +35,7 @@ impl Log {
     }
 }
 
-fn key_population(rng: &mut Rng) -> Vec<[u8; 16]> {
+fn key_population(rng: &mut Rng, extra: usize) -> Vec<[u8; 16]> {
     let mut keys: Vec<[u8; 16]> = vec![[0u8; 16], [0xff; 16]];
     let mut k = [0u8; 16];
     k[0] = 0x80;
@@ -45,7 +45,7 @@ fn key_population(rng: &mut Rng) -> Vec<[u8; 16]> {
         *b = i as u8;
     }
     keys.push(k);
-    for _ in 0..8 {
+    for _ in 0..extra {
         keys.push(rng.array::<16>());
     }
     keys
@@ -76,7 +76,9 @@ fn main() {
         written: 0,
     });
 
-    let max_len: usize = 1024;
+    // the statement quantifies over lengths 0..=1024; thorough goes beyond and uses more keys per length
+    let max_len: usize = ctx.pick(1024, 2560);
+    let extra_keys: usize = ctx.pick(8, 28);
     let threads = 16usize;
 
     std::thread::scope(|s| {
@@ -85,7 +87,7 @@ fn main() {
             let log = &log;
             s.spawn(move || {
                 let mut rng = ctx.rng(100 + t as u64);
-                let keys = key_population(&mut ctx.rng(7));
+                let keys = key_population(&mut ctx.rng(7), extra_keys);
                 // lengths are sharded over threads
                 for len in (0..=max_len).filter(|l| l % threads == t) {
                     salsa_len(ctx, log, &mut rng, &keys, len);
@@ -419,7 +421,7 @@ fn simd_helpers(ctx: &Ctx) {
     let subsets = host_feature_subsets();
     ctx.obs("simd.feature_subsets", subsets.len() as u64);
     let none = CpuFeatures::none();
-    let max_len = 200usize;
+    let max_len = ctx.pick(200usize, 420usize);
     std::thread::scope(|s| {
         for (si, feat) in subsets.iter().enumerate() {
             let ctx = ctx;
